@@ -35,7 +35,17 @@ var noSynonyms = []spec.SynEntry{{Term: "a", Syns: nil}}
 // s2 then s1; each field introduces a term).
 // Kind 21: an ordinary text document whose text field (stored, doc values) is NAMED s1 - field
 // names and thesaurus names share one name space inside a segment.
-var NumSynDocKinds = 1 + 2*len(synEntries) + 2 + 2 + 2 + 1 + 1 + 1
+var NumSynDocKinds = 1 + 2*len(synEntries) + 2 + 2 + 2 + 1 + 1 + 1 + 1
+
+// Kind 24: thesaurus s1, term a with 20 synonyms (x, y and 18 more): together with another
+// definition of a the term has more (synonym, document) pairs than any small decoding batch.
+var manySynonyms = func() []spec.SynEntry {
+	syns := []string{"x", "y"}
+	for i := 2; i < 20; i++ {
+		syns = append(syns, fmt.Sprintf("m%02d", i))
+	}
+	return []spec.SynEntry{{Term: "a", Syns: syns}}
+}()
 
 // Kind 23: thesaurus s1 with the EMPTY string as a left-hand term (and a second term).
 var emptyLHS = []spec.SynEntry{{Term: "", Syns: []string{"x", "y"}}, {Term: "b", Syns: []string{"z"}}}
@@ -47,6 +57,9 @@ func SynDoc(i int, kind int) spec.Doc {
 	id := fmt.Sprintf("d%d", i)
 	if kind == 0 {
 		return spec.Doc{ID: id, Fields: []spec.Field{{Name: "f", Len: 1, Stored: true, Value: []byte("x"), Toks: []spec.Tok{{Term: "x", Freq: 1}}}}}
+	}
+	if kind == 2*len(synEntries)+10 {
+		return spec.Doc{ID: id, IDLast: true, Fields: []spec.Field{{Name: "s1", Kind: spec.Synonym, Syn: manySynonyms}}}
 	}
 	if kind == 2*len(synEntries)+9 {
 		return spec.Doc{ID: id, IDLast: true, Fields: []spec.Field{{Name: "s1", Kind: spec.Synonym, Syn: emptyLHS}}}
